@@ -262,6 +262,8 @@ class MappingStorage:
                     oid=oid, serials=(old_tid, serial), data=data)
 
         self._tdata[oid] = data
+        # An explicitly chosen oid must never be handed out by new_oid().
+        self._oid = max(self._oid, ZODB.utils.u64(oid))
 
     checkCurrentSerialInTransaction = (
         ZODB.BaseStorage.checkCurrentSerialInTransaction)
